@@ -1,0 +1,48 @@
+//go:build verif
+
+// Contracts for package tor, checked by /verif/govc (see /verif/DESIGN.md).
+// This file contains only comments: it adds no code to any build.
+
+package tor
+
+// Geom: the self-consistent geometry of a torrent whose metadata is known
+// (taken from the statement of property C13, not from the code), in parts.
+//@ spec GeomSizes(t *Torrent) bool
+//@   body t.Pieces.PieceSize() >= 16384 && t.Pieces.PieceSize()%16384 == 0 && t.Pieces.Length() >= 0 &&
+//@        int64(t.Pieces.Num()) == (t.Pieces.Length()+int64(t.Pieces.PieceSize())-1)/int64(t.Pieces.PieceSize()) &&
+//@        len(t.PieceHashes) == t.Pieces.Num() &&
+//@        int64(len(t.inFlight)) == (t.Pieces.Length()+16383)/16384 && t.Name != ""
+//@ spec GeomHashes(t *Torrent) bool
+//@   body forall i int :: 0 <= i && i < len(t.PieceHashes) ==> len(t.PieceHashes[i]) == 20
+// Files are laid out contiguously from offset 0, have non-negative lengths
+// and sum to the total length; every file has a path.
+//@ spec FilesEach(t *Torrent) bool
+//@   body forall k int :: 0 <= k && k < len(t.Files) ==> t.Files[k].Length >= 0 && t.Files[k].Path != nil
+//@ spec FilesChain(t *Torrent) bool
+//@   body forall k int :: 0 <= k && k < len(t.Files)-1 ==> t.Files[k+1].Offset == t.Files[k].Offset + t.Files[k].Length
+//@ spec FilesEnds(t *Torrent) bool
+//@   body t.Files == nil || ((len(t.Files) > 0 ==> t.Files[0].Offset == 0) &&
+//@        t.Pieces.Length() == (len(t.Files) == 0 ? 0 : t.Files[len(t.Files)-1].Offset + t.Files[len(t.Files)-1].Length))
+//@ spec Geom(t *Torrent) bool
+//@   body GeomSizes(t) && GeomHashes(t) && FilesEach(t) && FilesChain(t) && FilesEnds(t)
+
+//@ func (*Torrent).MetadataComplete
+//@   requires torrent != nil && torrent.Pieces.Length() <= 0
+//@   modifies torrent.inFlight, torrent.PieceHashes, torrent.Name, torrent.Files, torrent.infoComplete, torrent.Pieces
+//@   ensures  [sizes]  $r0 == nil ==> GeomSizes(torrent)
+//@   ensures  [hashes] $r0 == nil ==> GeomHashes(torrent)
+//@   ensures  [files]  $r0 == nil ==> FilesEach(torrent)
+//@   ensures  [chain]  $r0 == nil ==> FilesChain(torrent)
+//@   ensures  [ends]   $r0 == nil ==> FilesEnds(torrent)
+//@   ensures  [latch] $r0 != nil ==> torrent.infoComplete == old(torrent.infoComplete)
+//@   ensures  [done]  $r0 == nil ==> torrent.infoComplete == 1
+//@   loop 1
+//@     invariant 0 <= i && i <= len(info.Pieces)/20 && len(hashes) == i && cap(hashes) == len(info.Pieces)/20 && len(info.Pieces)%20 == 0 && fresh_(hashes)
+//@     invariant forall k int :: 0 <= k && k < i ==> len(hashes[k]) == 20
+//@   loop 2
+//@     invariant len(files) == $i && length >= 0 && (files == nil || fresh_(files))
+//@     invariant [nonneg] forall k int :: 0 <= k && k < len(files) ==> files[k].Length >= 0 && files[k].Path != nil
+//@     invariant [chain]  forall k int :: 0 <= k && k < len(files)-1 ==> files[k+1].Offset == files[k].Offset + files[k].Length
+//@     invariant [first]  len(files) > 0 ==> files[0].Offset == 0
+//@     invariant length == (len(files) == 0 ? 0 : files[len(files)-1].Offset + files[len(files)-1].Length)
+//@   props    C13 C12
